@@ -342,11 +342,46 @@ def rule_r4(ctx) -> RuleResult:
         return []
 
     subs = []
+    guarded = []   # (literal, folds case, step): steps that run only `if <literal> in text[.lower()]` (a fast path)
     for st in fn.body:
         if isinstance(st, ast.Assign) and unparse(st.targets[0]) == "text":
             subs.extend(chain(st.value, st.lineno))
         elif isinstance(st, ast.Return) and st.value is not None:
             subs.extend(chain(st.value, st.lineno))
+        elif isinstance(st, ast.If) and not st.orelse and isinstance(st.test, ast.Compare) and len(st.test.ops) == 1 \
+                and isinstance(st.test.ops[0], ast.In) and isinstance(st.test.left, ast.Constant) and isinstance(st.test.left.value, str) \
+                and unparse(st.test.comparators[0]) in ("text", "text.lower()", "text.casefold()") \
+                and all(isinstance(b, ast.Assign) and unparse(b.targets[0]) == "text" and chain(b.value, b.lineno) for b in st.body):
+            for b in st.body:
+                steps = chain(b.value, b.lineno)
+                subs.extend(steps)
+                guarded.extend((st.test.left.value, unparse(st.test.comparators[0]) != "text", x) for x in steps)
+    # a fast-path guard may skip a substitution only for texts the pattern cannot match: the literal must occur in every match,
+    # under the pattern's own case rules
+    for lit, folds, step in guarded:
+        pat = step.value.args[0].value
+        try:
+            tree = sre_parse.parse(pat)
+        except Exception as e:  # noqa: BLE001
+            raise AnalysisError("preprocess_text: unparsable pattern {!r}: {}".format(pat, e))
+        icase = bool(tree.state.flags & re.IGNORECASE)
+        run = ""
+        for op, av in tree:
+            if op is sre_c.LITERAL:
+                run += chr(av)
+            elif op in (sre_c.MAX_REPEAT, sre_c.MIN_REPEAT) and av[0] == 0 and not run:
+                continue
+            else:
+                break
+        cased = lit.lower() != lit.upper()
+        if icase and cased and not folds:
+            rr.bad(Finding("C15.R4", X.CORE, "core.Wtp.preprocess_text", "if {!r} in text: re.sub({!r}, ...)".format(lit, pat),
+                           "the substitution is case-insensitive but the guard in front of it is not: a text whose only tags are written "
+                           "`{}` skips the step and its protected content is expanded and parsed as live markup".format(lit.upper()), step.lineno))
+        elif (lit.lower() if icase else lit) in (run.lower() if icase else run) and (not folds or lit == lit.lower()):
+            rr.ok("core.Wtp.preprocess_text", "guard {!r} occurs in every match of {!r}".format(lit, pat))
+        else:
+            raise AnalysisError("preprocess_text: cannot show that every match of {!r} contains the guard literal {!r} (inconclusive)".format(pat, lit))
     if not subs:
         raise AnalysisError("preprocess_text: no re.sub(<constant pattern>, ., text) step recognised")
 
